@@ -23,6 +23,12 @@
 // are rejected; a valid or expired-but-otherwise-valid hint is accepted; client_id
 // != azp is rejected; TerminateSession* is journaled only for the hint's (sub,
 // client) and never on a rejected request; a supplied state arrives unchanged.
+//
+// Further products (config.go, hist.go): provider configurations (request-dependent
+// issuer, hint key set); storage faults at every storage call of a request (a logout
+// whose TerminateSession* call failed must not be answered as done); two overlapping
+// requests on one provider, the first parked at every one of its yield points while
+// the second is served (internal/sched), each answer judged like a sequential one.
 package main
 
 import (
@@ -75,7 +81,7 @@ type reqCtx struct {
 	Issuer    string         `json:"issuer_of_this_request"`
 	History   []string       `json:"earlier_requests_on_this_provider,omitempty"`
 	Extra     map[string]any `json:"provider_options,omitempty"`
-	Fault     *faultDesc     `json:"storage_fault,omitempty"`      // the storage was armed to fail during this request
+	Fault     *faultDesc     `json:"storage_fault,omitempty"`       // the storage was armed to fail during this request
 	Overlap   *overlapDesc   `json:"overlapping_request,omitempty"` // another request was served while this one was parked
 }
 
